@@ -279,7 +279,7 @@ def main():
         run(chk, 60)
         run_swap(chk, 150)
         run_async(chk, 30)
-        if chk.broken() and not chk.spec_failures:
+        if (chk.broken() or chk.anchor_changed) and not chk.spec_failures:
             run(chk, 300)
     chk.finish()
 
